@@ -470,13 +470,13 @@ def part_from_matchfile(
     # compute necessary divs based on the types of notes in the
     # match snotes (only integers)
     divs_arg = [
-        max(int((beat_type_map(note.OnsetInBeats) / 4)), 1)
+        max(int((beat_type_map_from_beats(note.OnsetInBeats) / 4)), 1)
         * note.Offset.denominator
         * (note.Offset.tuple_div or 1)
         for note in snotes
     ]
     divs_arg += [
-        max(int((beat_type_map(note.OnsetInBeats) / 4)), 1)
+        max(int((beat_type_map_from_beats(note.OnsetInBeats) / 4)), 1)
         * note.Duration.denominator
         * (note.Duration.tuple_div or 1)
         for note in snotes
@@ -486,11 +486,11 @@ def part_from_matchfile(
     unique_onsets, inv_idxs = np.unique(onset_in_beats, return_inverse=True)
 
     iois_in_beats = np.diff(unique_onsets)
-    beat_to_quarter = 4 / beat_type_map(onset_in_beats)
+    beat_to_quarter = 4 / beat_type_map_from_beats(onset_in_beats)
 
     iois_in_quarters_offset = np.r_[
         beat_to_quarter[0] * onset_in_beats[0],
-        (4 / beat_type_map(unique_onsets[:-1])) * iois_in_beats,
+        (4 / beat_type_map_from_beats(unique_onsets[:-1])) * iois_in_beats,
     ]
     onset_in_quarters = np.cumsum(iois_in_quarters_offset)
     iois_in_quarters = np.diff(onset_in_quarters)
@@ -503,7 +503,7 @@ def part_from_matchfile(
     part.set_quarter_duration(0, divs)
     bars = np.unique([n.Measure for n in snotes])
     t = min_time
-    t = t * 4 / beat_type_map(min_time)
+    t = t * 4 / beat_type_map_from_beats(min_time)
     offset = t
     bar_times = {}
 
@@ -554,11 +554,11 @@ def part_from_matchfile(
         # on_off_scale = 1 means duration and beat offset are given in
         # whole notes, else they're given in beats (as in the KAIST data)
         if not match_offset_duration_in_whole:
-            on_off_scale = beat_type_map(bar_start)
+            on_off_scale = beat_type_map_from_beats(note.OnsetInBeats)
 
         # offset within bar in quarter units adjusted for different
         # time signatures -> 4 / beat_type_map(bar_start)
-        bar_offset = (note.Beat - 1) * 4 / beat_type_map(bar_start)
+        bar_offset = (note.Beat - 1) * 4 / beat_type_map_from_beats(note.OnsetInBeats)
 
         # offset within beat in quarter units adjusted for different
         # time signatures -> 4 / beat_type_map(bar_start)
@@ -755,9 +755,9 @@ def part_from_matchfile(
     last_closing_barline = barline_in_divs + int(
         round(
             divs
-            * beats_map(barline_in_quarters)
+            * beats_map_from_beats(a_note_in_this_bar.OnsetInBeats)
             * 4
-            / beat_type_map(barline_in_quarters)
+            / beat_type_map_from_beats(a_note_in_this_bar.OnsetInBeats)
         )
     )
     part.add(prev_measure, None, last_closing_barline)
